@@ -229,10 +229,16 @@ def func_sigs(text):
     return out
 
 
-def judge_doc(ctx, srv, f, g, text, conf, opened):
-    before = srv.seq
-    (srv.did_change if opened else srv.did_open)(f, text)
-    diags = srv.wait_diagnostics(f, before, timeout=30)
+def judge_doc(ctx, srv, f, g, text, conf, opened, resend=True):
+    from ..lsp import path_to_uri
+    if resend:
+        before = srv.seq
+        (srv.did_change if opened else srv.did_open)(f, text)
+        diags = srv.wait_diagnostics(f, before, timeout=30)
+    else:
+        # judge what the editor shows now: the last notification received for the document
+        allp = srv.diag.get(path_to_uri(f), [])
+        diags = allp[-1][1] if allp else None
     if diags is None:
         raise Inconclusive("no diagnostics published")
     und = [d for d in diags if d.get("code") == "undeclared-fixture"]
@@ -328,6 +334,28 @@ def run(ctx):
                 continue
             judge_doc(ctx, srv, f, g, text, conf, opened)
             opened = True
+            if i % 3 == 0 and text.endswith("\n\n") and g.lines and g.lines[-1] == "":
+                # the same text with its last newline moved to the front: the same length, every line one lower
+                import copy
+                g2 = copy.copy(g)
+                g2.lines = [""] + g.lines[:-1]
+                g2.sites = [dict(s_, line0=s_["line0"] + 1) for s_ in g.sites]
+                g2.funcs = [dict(fn_, line0=fn_["line0"] + 1) for fn_ in g.funcs]
+                judge_doc(ctx, srv, f, g2, "\n" + text[:-1], conf, True)
+                ctx.nontrivial(("same_length_shifted_lines",))
+            if i % 5 == 1 and g.sites:
+                # two versions back to back: a large paste that also hides one use, then the text again
+                victim = g.sites[0]
+                lines2 = list(g.lines)
+                lines2[victim["line0"]] = lines2[victim["line0"]].replace(victim["name"], "x", 1)
+                big = "\n".join(lines2) + "\n" + "".join(f"def helper_pad_{k}(a, b):\n    c = [a, b]\n    return c\n\n" for k in range(3000))
+                with srv.batch():
+                    srv.did_change(f, big)
+                    srv.did_change(f, text)
+                srv.document_symbol(f)
+                srv.pump(0.3)
+                judge_doc(ctx, srv, f, g, text, conf, True, resend=False)
+                ctx.nontrivial(("burst_then_judged",))
             ctx.sample({"doc": text[:1200], "sites": g.sites[:8]})
             ctx.count("documents")
     finally:
